@@ -12,17 +12,19 @@
                                completion is impossible and never stops accepting batches.
    NOT proved (stated here in full, not claimed; this is why the level is partial):
      * C08_fair_termination, with
-         trace v st0 sigma n      := run v st0 (map sigma (seq 0 n))            (sigma : nat -> tid * nat, an infinite schedule)
-         enabled_at v st t        := exists c st', step v st t c = Some st'
-         weakly_fair v st0 sigma  := forall t n, (forall m st, n <= m -> trace v st0 sigma m = Some st -> enabled_at v st t)
-                                                 -> exists m, n <= m /\ fst (sigma m) = t
+         trace v st0 sigma n       := run v st0 (map sigma (seq 0 n))            (sigma : nat -> tid * nat, an infinite schedule)
+         enabled_at v st t         := exists c st', step v st t c = Some st'
+         strongly_fair v st0 sigma := forall t, (forall n, exists m st, n <= m /\ trace v st0 sigma m = Some st /\ enabled_at v st t)
+                                                -> forall n, exists m, n <= m /\ fst (sigma m) = t
        the statement
          forall v calls sigma, ext_wait_timed v = true -> failure_path_repaired v = true ->
-           (forall n, trace v (init_state calls) sigma n <> None) -> weakly_fair v (init_state calls) sigma ->
+           (forall n, trace v (init_state calls) sigma n <> None) -> strongly_fair v (init_state calls) sigma ->
            exists n st, trace v (init_state calls) sigma n = Some st /\ all_done st = true
-       (every weakly fair infinite schedule completes every call).  The theorems above exclude deadlock, lost wake-ups
-       and traps; they do not exclude starvation by an unfair lock under an unbounded stream of competing callers, nor an
-       adversarial scheduler that always fires the 0.5 s timeouts early.
+       (every strongly fair infinite schedule completes every call).  With WEAK fairness the statement is false for the
+       model: C08_weak_fairness_insufficient below exhibits a reachable cycle of the polling executor during which a
+       member is enabled only intermittently and never scheduled.  The theorems above exclude deadlock, lost wake-ups and
+       traps; they do not exclude starvation by a scheduler/lock that never lets a thread win a race it can win
+       infinitely often (in the real code the executor sleeps in wait(0.5) with the condition's lock released).
    Property theorems only. *)
 From QV Require Import Common.Base Batch.Monitor Batch.ListX Batch.Inv Batch.Route Batch.Live Batch.Live_proofs Batch.Drain_proofs.
 
@@ -60,6 +62,20 @@ Theorem C08_can_always_finish : forall v st,
   exists sched st', run v st sched = Some st' /\ all_done st' = true.
 Proof. exact can_always_finish. Qed.
 Print Assumptions C08_can_always_finish.
+
+(* Weak fairness is not enough (hence the strong-fairness form of the unproved C08_fair_termination above): a reachable
+   state st and a non-empty schedule of the polling executor alone that returns to st, while member T0 is enabled in st
+   (so it is enabled infinitely often), disabled after the second step of the cycle (the executor holds the condition lock) (so it is not continuously enabled),
+   and never scheduled. *)
+Theorem C08_weak_fairness_insufficient :
+  exists st, run (head false) (init_state lasso_calls) lasso_prefix = Some st
+    /\ run (head false) st lasso_cycle = Some st
+    /\ (exists th0, nth_error (threads st) 0 = Some th0 /\ t_pc th0 = N2)
+    /\ (exists st', step (head false) st 0 0 = Some st')
+    /\ (exists st1 st2, run (head false) st (firstn 2 lasso_cycle) = Some st1 /\ step (head false) st1 0 0 = None
+                        /\ run (head false) st (firstn 3 lasso_cycle) = Some st2).
+Proof. exact polling_cycle. Qed.
+Print Assumptions C08_weak_fairness_insufficient.
 
 Example C08_nonvacuous :
   exists st, run (head true) (init_state demo_calls) demo_sched = Some st /\ all_done st = true
